@@ -134,8 +134,15 @@ def gen_container(args):
     conds = [('duration', '>', 3), ('duration', '<', 4), ('start_sample', '>', 5), ('duration', '>', 100), ('start_sample', '<', 9), ('is_good', '==', 1)]
     for _ in range(count):
         fam = int(rng.randint(1, 4))
-        C = emd.cycles.Cycles(val[PHASE[fam]], use_cache=bool(rng.randint(2)))
-        C.compute_cycle_timings()
+        try:
+            C = emd.cycles.Cycles(val[PHASE[fam]], use_cache=bool(rng.randint(2)))
+            C.compute_cycle_timings()
+        except Exception as e:
+            # the container cannot even be built on a valid phase: recorded as a record whose vectors are wrong
+            r = record(cs, emd, [0, 0, 1, 1], [1, 1])
+            r.update(subset_vect=[-99], chain_vect=[-99], container={'family': fam, 'step': -1, 'cond': 'construction raised %s: %s' % (type(e).__name__, e)})
+            out.append(r)
+            continue
         for step in range(3):
             name, op, lit = conds[rng.randint(len(conds))]
             try:
@@ -146,8 +153,13 @@ def gen_container(args):
             sel = {'>': m > lit, '<': m < lit, '==': m == lit}[op]
             if C.subset_vect is None or C.chain_vect is None:
                 continue
-            r = record(cs, emd, [int(v) for v in C.cycle_vect[:, 0]] if C.cycle_vect.ndim == 2 else [int(v) for v in C.cycle_vect],
-                       [int(b) for b in sel], vectors=(np.asarray(C.subset_vect), np.asarray(C.chain_vect)))
+            cvl = [int(v) for v in C.cycle_vect[:, 0]] if C.cycle_vect.ndim == 2 else [int(v) for v in C.cycle_vect]
+            try:
+                r = record(cs, emd, cvl, [int(b) for b in sel], vectors=(np.asarray(C.subset_vect), np.asarray(C.chain_vect)))
+            except Exception as e:
+                # a map could not even be evaluated on the container's own vectors: recorded as a record whose vectors are wrong
+                r = record(cs, emd, cvl, [int(b) for b in sel])
+                r.update(subset_vect=[-99], chain_vect=[-99], harness_note='%s: %s' % (type(e).__name__, e))
             r['container'] = {'family': fam, 'step': step, 'cond': '%s%s%d' % (name, op, lit)}
             out.append(r)
     return out
